@@ -206,10 +206,10 @@ PROPS = {
         "py_leg": "c17_reader",
         "floors": {
             "quick": {"dimacs_parsed": 800, "dimacs_roundtrips": 800, "sexprs_parsed": 850, "bdds_serialised": 2500, "sdds_serialised": 2500,
-                      "vtrees_serialised": 190, "py_read_bdd": 2500, "py_read_sdd": 2500, "py_read_vtree": 190, "py_complemented_roots": 500},
+                      "vtrees_serialised": 190, "py_read_bdd": 2500, "py_read_sdd": 2500, "py_read_vtree": 190, "py_complemented_roots": 500, "diagrams_over_spread_labels": 100, "dimacs_texts_with_large_variable_numbers": 150, "library_evaluator_tables": 1500},
             "thorough": {"py_read_bdd": 100000},
         },
-        "rule": "One evaluation = one text parsed or one object serialised. DIMACS: the harness prints its own clause list (1-based, with comments, irregular spacing, duplicate and complementary literals), Cnf::from_dimacs must have the models of the text with variable i -> label i-1 (evaluated structurally and through eval), LogicalExpr::from_dimacs with variable i -> label i (S8, evaluated by the harness's own AST evaluator); to_dimacs + header + from_dimacs must give the same clause sets. S-expressions: random expression trees over all 7 constructors with names chosen so that bytewise-lexicographic order differs from first-occurrence and numeric order; variable_mapping must be the lexicographic numbering of the occurring names and the parsed expression must have the text's models under it. Serialisers: BDDSerializer / SDDSerializer / VTreeSerializer output (serde_json) for constants, single literals, results of random operation histories and their negations (shared nodes, complemented roots and edges) is written to a side file with the oracle truth table and read by an independent PYTHON reader (node table + complement flags -> truth table; vtree -> nested lists) which must reproduce the table / tree. Non-trivial = function neither constant nor literal; distinct = distinct texts / JSON strings.",
+        "rule": "One evaluation = one text parsed or one object serialised. DIMACS: the harness prints its own clause list (1-based, with comments, irregular spacing, duplicate and complementary literals), Cnf::from_dimacs must have the models of the text with variable i -> label i-1 (evaluated structurally and through eval), LogicalExpr::from_dimacs with variable i -> label i (S8, evaluated by the harness's own AST evaluator); to_dimacs + header + from_dimacs must give the same clause sets. S-expressions: random expression trees over all 7 constructors with names chosen so that bytewise-lexicographic order differs from first-occurrence and numeric order; variable_mapping must be the lexicographic numbering of the occurring names and the parsed expression must have the text's models under it. Serialisers: BDDSerializer / SDDSerializer / VTreeSerializer output (serde_json) for constants, single literals, results of random operation histories and their negations (shared nodes, complemented roots and edges) is written to a side file with the oracle truth table and read by an independent PYTHON reader (node table + complement flags -> truth table; vtree -> nested lists) which must reproduce the table / tree. Non-trivial = function neither constant nor literal; distinct = distinct texts / JSON strings. A quarter of the DIMACS texts use large non-contiguous variable numbers (up to 200) and a quarter of the serialised diagrams live in managers / vtrees whose variables are spread over up to 200 labels (the Python reader gets the label of each variable); the parsed formulas are also evaluated with the library's own LogicalExpr::eval on every assignment.",
         "assumptions": ASSUME_COMMON + ["s-expressions without constants (todo!() in rsdd, excluded by the property)", "DIMACS texts without empty clauses (third-party parser behaviour is not rsdd's)"],
     },
     "C19": {
